@@ -601,8 +601,8 @@ func ruleC17Attach(c *Ctx) {
 		c.Guard(rule, fn, nilErrorReturns(fn), "return backend", nil, okcall(fRem+"open"), okcall("net.Dial"))
 	}
 	if fn := c.Anchor(rule, fSrv+"Open"); fn != nil {
-		c.Guard(rule, fn, CallsTo(fn, "replica.New"), "open replica", isUnlockCall,
-			Need{Desc: "server write lock taken", Instr: isWLockCall},
+		c.Guard(rule, fn, CallsTo(fn, "replica.New"), "open replica", lockOrUnlock,
+			needWLock("server write lock taken"),
 			atom("no replica instance open", isNilAtom("$0.r")))
 		c.Guard(rule, fn, StoresTo(fn, "Server", "r"), "publish instance", nil, okcall("replica.New"))
 	}
